@@ -23,6 +23,7 @@ import GunYu.Basic.Bytes
 import GunYu.Model.Slot
 import GunYu.Gen.KeySpec
 import GunYu.Gen.FilterConsts
+import GunYu.Gen.BisyncKeys
 
 namespace GunYu.Filter
 open GunYu
@@ -448,6 +449,23 @@ def atoi? (bs : Bytes) : Option Int :=
   | 43 :: rest => (decToNat? rest).map (fun n => (n : Int))
   | _ => (decToNat? bs).map (fun n => (n : Int))
 
+/-- "redis-gunyu-bisync:" — the namespace of the bisync control keys (marker,
+    latest, commit, index, rdb records; `checkpoint.BisyncKeyPrefix + ":"`) -/
+def bisyncNamespace : Bytes := Gen.bisyncKeyPrefix ++ [58]
+
+/-- `NewRedisOutput` of a link WITHOUT bisync (REPAIRED code): the bisync
+    namespace is a third reserved prefix. (`buildOutput` is the filter of a
+    bisync link, whose parser must still see marker commands to recognise
+    mirrored transactions and drops control commands itself.) Inserting the
+    three reserved prefixes and then the configured ones marks the same words
+    as `buildOutput` with the namespace put in front of the configured list. -/
+def buildOutputPlain (c : FilterCfg) : KeyFilter :=
+  buildOutput { c with prefBlack := bisyncNamespace :: c.prefBlack }
+
+/-- `syncer.isBisyncNamespaceKey` -/
+def isBisyncNamespaceKey (k : Bytes) : Bool :=
+  bisyncNamespace.isPrefixOf k || Gen.checkpointKey.isPrefixOf k
+
 /-! ### config.(*SyncConfig).fix on the filter section -/
 
 /-- what `SyncConfig.fix` leaves of the configured filter (REPAIRED code: the
@@ -465,5 +483,10 @@ def configFix (cluster : Bool) (targetDb : Int) (resume : Bool) (c : FilterCfg) 
     false and neither `FilterKey(key)` nor `FilterSlot(key)` holds -/
 def rdbKeep (f : KeyFilter) (db : Int) (key : Bytes) : Bool :=
   !f.filterDb db && !(f.filterKey key || f.filterSlot key)
+
+/-- `rdbReplayBisync` (REPAIRED code): additionally no key of the bisync
+    control namespace is replayed -/
+def rdbKeepBisync (f : KeyFilter) (db : Int) (key : Bytes) : Bool :=
+  !f.filterDb db && !(f.filterKey key || f.filterSlot key || isBisyncNamespaceKey key)
 
 end GunYu.Filter
